@@ -73,7 +73,7 @@ def main():
                       "kind_free_text": "TLA+ specification (spec/*.tla) model-checked by TLC; Rust conformance harness (harness/) replays TLC behaviours on the real library and records traces that TLC validates against the specification"}],
          "checks": checks,
          "not_applicable": na,
-         "notes": "see DESIGN.md (section 5: what each check does; section 6: nine defects found and fixed; section 9: seeded-defect study); python3 tools/check.py selftest runs the deviation switches, the two-level consistency check and the trace corruptions; known findings in KNOWN_FINDINGS.jsonl (all fixed)"}
+         "notes": "see DESIGN.md (section 5: what each check does; section 6: eleven findings, all fixed by ten fix: commits; section 9: seeded-defect study); python3 tools/check.py selftest runs the deviation switches, the two-level consistency check and the trace corruptions; known findings in KNOWN_FINDINGS.jsonl (all fixed)"}
     json.dump(m, open(os.path.join(VERIF, "MANIFEST.json"), "w"), indent=1)
     print("claimed:", sorted(CLAIMED), "not yet:", [x["property_id"] for x in na])
 
